@@ -298,6 +298,12 @@ CARRIERS: List[Carrier] = [
             elems=_cmp_elems, blank=_cmp_blank, refuse_re="requires an 'op'", elem_ops=False, tmpl0='x = \n'),
     Carrier('ifbody3', 'if t:  # hdr\n    a = 1  # ca\n\n    # pre b\n    b = 2\n    c = 3; d = 4\nz = 0\n', L0, 'body',
             'if t:\n    {}\nz = 0\n', ['a = 1', 'b = 2', 'c = 3', 'd = 4'], ['p = 5', 'q(6)'], sep='\n', tsep='\n    '),
+    Carrier('orelse2', 'if x:\n    pass\nelse:  # e\n    y = 0\n    z = 0\nw = 1\n', L0, 'orelse', 'if x:\n    pass\nelse:\n    {}\nw = 1\n', ['y = 0', 'z = 0'],
+            ['if a:\n    b = 1', 'c = 2'], sep='\n', tsep='\n    ', tindent='    ', tmpl0='if x:\n    pass\nw = 1\n'),
+    Carrier('elifchain', 'if x:\n    pass\nelif y:  # e\n    u = 0\nw = 1\n', L0, 'orelse', 'if x:\n    pass\nelse:\n    {}\nw = 1\n', ['if y:\n    u = 0'],
+            ['if a:\n    b = 1', 'c = 2'], sep='\n', tsep='\n    ', tindent='    ', tmpl0='if x:\n    pass\nw = 1\n'),
+    Carrier('ifinline', 'if a: b\nelse: e\nz = 0\n', L0, 'body', 'if a:\n    {}\nelse: e\nz = 0\n', ['b'], ['p = 5', 'q(6)'], sep='\n', tsep='\n    '),
+    Carrier('bscomment', 'a = 1  # see C:\\tmp\\\nb = 2\n# own line \\\nc = 3\nd = 4  # end\n', [], 'body', '{}\n', ['a = 1', 'b = 2', 'c = 3', 'd = 4'], ['p = 5', 'q(6)'], sep='\n'),
     Carrier('modbody', '# top\na = 1\n\n\ndef f(): pass\n\n# mid\nb = 2  # cb\n', [], 'body', '{}\n', ['a = 1', 'def f(): pass', 'b = 2'], ['p = 5', 'q(6)'], sep='\n'),
     Carrier('funcbody', 'def f():\n    """doc"""\n    a = 1\n    # c\n    b = 2\n', L0, '_body',
             'def f():\n    """doc"""\n    {}\n', ['a = 1', 'b = 2'], ['p = 5', 'q(6)'], sep='\n', tsep='\n    ', elems=_body_elems, blank=_body_blank, elem_ops=False),
@@ -629,7 +635,7 @@ FN_EDIT = ['fst.fst.FST.put_slice', 'fst.fst.FST.put', 'fst.fst.FST.insert', 'fs
 
 def c03_cells():
     cells = []
-    quick_carriers = ['list4c', 'tuple3', 'dict3', 'ifbody3', 'callargs', 'global3']
+    quick_carriers = ['list4c', 'tuple3', 'dict3', 'ifbody3', 'callargs', 'global3', 'orelse2', 'elifchain']
     for c in CARRIERS:
         for opname in OPS:
             if opname.startswith('elem_') and not c.elem_ops:
